@@ -250,6 +250,22 @@ def body(ctx, m):
     l3 = ctx.must("import_raises", load, m2, y2)
     y3 = ctx.must("export_raises", l3.to_pagexml_string, version=other)
     ctx.check(strip_ts(y2) == strip_ts(y3), "export_not_a_fixpoint_other_version", lambda: "%s\n---\n%s" % (y2[:3000], y3[:3000]))
+    # --- the validate_id export option prefixes every id with 'id_' and changes nothing else: same regions in the same order,
+    # same lines, same geometry and text as the default export of the same page
+    if m["via"] == "bytesio":
+        xv = ctx.must("export_raises", pl.to_pagexml_string, version=version, validate_id=True)
+        lv = ctx.must("import_raises", load, m, xv)
+        a = [(r.id, [l.id for l in r.lines]) for r in l1.regions]
+        b = [(r.id, [l.id for l in r.lines]) for r in lv.regions]
+        ctx.check(b == [("id_" + rid, ["id_" + lid for lid in lids]) for rid, lids in a], "validate_id_export_changes_more_than_the_id_prefix",
+                  lambda: "default export gives %r, validate_id export gives %r" % (a, b))
+        same = all(np.array_equal(np.asarray(r1.polygon), np.asarray(r2.polygon)) and r1.transcription == r2.transcription and r1.region_type == r2.region_type
+                   and all(np.array_equal(np.asarray(x.baseline), np.asarray(y.baseline)) and np.array_equal(np.asarray(x.polygon), np.asarray(y.polygon))
+                           and x.transcription == y.transcription and x.index == y.index and x.transcription_confidence == y.transcription_confidence
+                           for x, y in zip(r1.lines, r2.lines))
+                   for r1, r2 in zip(l1.regions, lv.regions))
+        ctx.check(same, "validate_id_export_changes_more_than_the_id_prefix", lambda: "geometry, text, types, indices or confidences differ; " + brief())
+        ctx.event("validate_id_export")
     # --- a loaded page that is edited in place (an editor moving a region, a de-skew step) must not leak into later imports
     victim = ctx.must("import_raises", load, m, x1)
     for reg in victim.regions:
